@@ -20,8 +20,8 @@ extern "C" { int nondet_int(); }
 static MgrNode *g_node; static int g_find_id; static Severity g_read_sev; static int g_read_calls;
 static MgrNode *g_nodes[4]; static int g_count; static int g_write_calls; static SDAI_Application_instance *g_written[4];
 static MgrNode *verif_FindFileId(InstMgr *, int id) { g_find_id = id; return g_node; }
-static int g_read_id, g_read_incr; static InstMgr *g_read_mgr;
-static Severity verif_inst_STEPread(SDAI_Application_instance *, int id, int incr, InstMgr *im, istream &, const char *, bool, bool) { g_read_calls++; g_read_id = id; g_read_incr = incr; g_read_mgr = im; return g_read_sev; }
+static int g_read_id, g_read_incr; static InstMgr *g_read_mgr; static bool g_read_strict, g_read_techcor;
+static Severity verif_inst_STEPread(SDAI_Application_instance *, int id, int incr, InstMgr *im, istream &, const char *, bool techcor, bool strict) { g_read_calls++; g_read_id = id; g_read_incr = incr; g_read_mgr = im; g_read_strict = strict; g_read_techcor = techcor; return g_read_sev; }
 static int g_max_id; static int verif_MaxFileId(InstMgr *) { return g_max_id; }
 /* the instance writer is called non-virtually (textual qualification, cbmc cannot dispatch virtual calls) and recorded */
 void SDAI_Application_instance::STEPwrite(ostream &, const char *, int) { if (g_write_calls < 4) g_written[g_write_calls] = this; g_write_calls++; }
